@@ -8,6 +8,7 @@ import (
 	"fmt"
 	"os"
 	"strings"
+	"syscall"
 	"time"
 
 	"github.com/refraction-networking/conjure/pkg/zzverif/vsched"
@@ -86,7 +87,12 @@ func Emit(o *Out) {
 
 // Fatal reports a harness error (never a verdict).
 func Fatal(f string, a ...any) {
-	fmt.Printf("HARNESS-ERROR "+f+"\n", a...)
+	// written to descriptor 1 itself: a harness that captures the code's output by
+	// re-pointing os.Stdout must not swallow its own error report
+	msg := fmt.Sprintf("HARNESS-ERROR "+f+"\n", a...)
+	if _, err := syscall.Write(1, []byte(msg)); err != nil {
+		fmt.Print(msg)
+	}
 	os.Exit(2)
 }
 
